@@ -59,8 +59,14 @@ def handle_bin_op(expr: ast.BinOp | astroid.BinOp, **kwargs) -> Token | None:
                 if type(guess) is not astroid.Const:
                     continue
                 return Token(value=ZeroDivisionError, line=expr.right.lineno, col=expr.right.col_offset)
-        if isinstance(expr.right, ast.Constant) and str(expr.right.value) == '0':
-            return Token(value=ZeroDivisionError, line=expr.right.lineno, col=expr.right.col_offset)
+        if isinstance(expr.right, ast.Constant):
+            try:
+                is_zero = str(expr.right.value) == '0'
+            except ValueError:
+                # an integer with too many digits to be rendered
+                is_zero = False
+            if is_zero:
+                return Token(value=ZeroDivisionError, line=expr.right.lineno, col=expr.right.col_offset)
     return None
 
 
